@@ -121,9 +121,10 @@ def build_coq():
     cp = os.path.join(COQ, "_CoqProject")
     if not os.path.exists(mk) or os.path.getmtime(mk) < os.path.getmtime(cp):
         sh(["coq_makefile", "-f", "_CoqProject", "-o", "Makefile.coq"], cwd=COQ)
-    out = sh("timeout 3000 make -f Makefile.coq -j%d 2>&1" % NCPU, cwd=COQ, timeout=3100, check=False)
-    if "Error" in out or "rror:" in out:
-        raise CheckFailure("the Coq development no longer builds (a theorem over the model or a generated table fails)", out[-6000:])
+    p = subprocess.run("timeout 3000 make -f Makefile.coq -j%d 2>&1" % NCPU, cwd=COQ, shell=True, env=ENV,
+                       stdout=subprocess.PIPE, stderr=subprocess.STDOUT, text=True, timeout=3100)
+    if p.returncode != 0:
+        raise CheckFailure("the Coq development no longer builds (a theorem over the model or a generated table fails, or the build timed out; rc=%d)" % p.returncode, p.stdout[-6000:])
 
 
 def build_runner():
@@ -159,7 +160,7 @@ def proof_obligations(ctx, vfile):
     """Compile the property file on its own, capture Print Assumptions, enforce the allowlist."""
     path = os.path.join(COQ, vfile)
     out = sh(["coqc", "-Q", COQ, "Bourse", "-w", "-notation-overridden,-deprecated-hint-without-locality", path], cwd=COQ, timeout=1800, check=False)
-    if "Error" in out:
+    if re.search(r"^Error|\nError|Error:", out):
         raise CheckFailure("property file %s no longer checks" % vfile, out[-4000:])
     src = open(path).read()
     theorems = re.findall(r"^\s*(?:Theorem|Corollary)\s+(\w+)", src, re.M)
